@@ -159,15 +159,14 @@ def hashKmerCore (kmer : List Nat) : Option Nat :=
   | some f, some r => some (if f < r then f else r)
   | _, _ => none
 
-/-- `_hash` as compiled without overflow checks (release builds, the Python wheels): the empty
-    k-mer indexes out of range (`none`); for k = 1 `(ksize - 2) as isize` wraps to -1 and the loop does
-    not run. -/
+/-- `_hash` as it is now (`let mut j: isize = ksize as isize - 2;`): the empty k-mer indexes out of
+    range (`none`); for k = 1 the loop does not run and both strands are the single code. -/
 def hashKmer (kmer : List Nat) : Option Nat :=
   if kmer.isEmpty then none else hashKmerCore kmer
 
-/-- `_hash` as compiled with overflow checks (dev/test profile): `ksize - 2` on a `usize` panics
-    for k = 1 — through the C API that is an abort of the process. -/
-def hashKmerChecked (kmer : List Nat) : Option Nat :=
+/-- `_hash` before the repair (`(ksize - 2) as isize` on a `usize`), as compiled with overflow checks
+    (dev/test profile): a panic for k = 1 — through the C API an abort of the process. -/
+def hashOld (kmer : List Nat) : Option Nat :=
   if kmer.length < 2 then none else hashKmerCore kmer
 
 def G.countKmer (g : G) (kmer : List Nat) : Option (G × Bool) := (hashKmer kmer).map g.count
